@@ -442,7 +442,7 @@ pub fn run_all(ctx: &mut Ctx, replay: Option<&Path>) {
     ctx.regressions(&b);
     ctx.regressions(&a);
     ctx.random(&b, (pops_strategy(), any::<bool>(), proptest::option::of(0u32..50)).prop_map(|(pops, direct, evals)| BestCase { pops, direct, evals }), ctx.tier.pick(60_000, 300_000));
-    ctx.random(&a, (0usize..8, pops_strategy(), proptest::collection::vec((0u16..8, obj_strategy()), 0..6), prop_oneof![2 => Just(0u8), 1 => 1u8..4]).prop_map(|(k, pops, target, reorder)| ArchiveCase { k, pops, target, reorder }), ctx.tier.pick(60_000, 300_000));
+    ctx.random(&a, (prop_oneof![10 => (0usize..8).boxed(), 1 => proptest::sample::select(vec![u32::MAX as usize, u32::MAX as usize + 1, (1usize << 32) + 2, (1usize << 32) + 7, 1usize << 63, usize::MAX]).boxed()], pops_strategy(), proptest::collection::vec((0u16..8, obj_strategy()), 0..6), prop_oneof![2 => Just(0u8), 1 => 1u8..4]).prop_map(|(k, pops, target, reorder)| ArchiveCase { k, pops, target, reorder }), ctx.tier.pick(60_000, 300_000));
     let per = ctx.tier.pick(400, 2000);
     for k in 0..21 {
         let r = RunCheck(k);
